@@ -1237,3 +1237,39 @@ Example forward_nonvacuous :
     map (fun t => rank (t_st t)) (tasks (after ex_cfg ex_tr_full)) = [2; 2; 1] /\
     map (fun t => rank (t_st t)) (tasks s') = [2; 3; 1].
 Proof. eexists _, _. split; [vm_compute; reflexivity|]. vm_compute. auto. Qed.
+
+(** * 6b at the level of a window: rpc.Cancel (Server.CancelRequest) of a call waiting for a slot *)
+Lemma cancel_waiter_step s n n' id k t s' os :
+  find_op n (ops s) = Some (OpCancel n' id) -> assoc id (used s) = Some k ->
+  nth_error (tasks s) k = Some t -> t_st t = TWaiting ->
+  step s (LRelCancel n) = Some (s', os) ->
+  (forall p c, ~ In (OStart p c) os) /\
+  nth_error (tasks s') k = Some (t <| t_cancelled := true |> <| t_st := TDone (Some cancel_err) |>) /\
+  ~ In k (sem_wait s') /\ sem_free s' = sem_free s.
+Proof.
+  intros Fo A E St H. apply step_decompose in H as (_ & s1 & os1 & R & D).
+  cbn in R. rewrite Fo in R. cbn in R. rewrite A in R. injection R as <- <-.
+  set (s0 := s <| ops ::= del_op n |>) in *.
+  destruct (cancel_task_waiting k s0 t E St) as (N & Q & _).
+  assert (F : sem_free (cancel_task k s0) = sem_free s) by exact (proj1 (proj2 (cancel_task_frame k s0))).
+  assert (NS : forall p c, ~ In (OStart p c) [ORet n AOk]) by (intros p c [X|[]]; discriminate).
+  destruct D as [(_ & -> & ->)|(_ & S)].
+  - repeat split; auto.
+  - destruct (settle_obs_app _ _ _ _ _ S) as (ex & -> & Fx).
+    pose proof (settle_extends _ _ _ _ _ S) as X.
+    split; [|split; [eapply extends_nth; eauto|destruct X as (_ & F2 & Q2 & _); split; [rewrite Q2; auto|congruence]]].
+    intros p c I. apply in_app_or in I as [I|I]; [eapply NS; eauto|].
+    rewrite Forall_forall in Fx. destruct (Fx _ I).
+Qed.
+
+Example cancel_waiter_step_nonvacuous :
+  exists t s' os,
+    let s := after ex_cfg (ex_tr_full ++ [LCallCancel 7 [51%N]]) in
+    reach ex_cfg s /\ find_op 7 (ops s) = Some (OpCancel 7 [51%N]) /\ assoc [51%N] (used s) = Some 2 /\
+    nth_error (tasks s) 2 = Some t /\ t_st t = TWaiting /\ step s (LRelCancel 7) = Some (s', os) /\
+    os = [ORet 7 AOk] /\ executing s' = 2.
+Proof.
+  eexists _, _, _. cbn zeta. split; [apply after_reach|]. split; [vm_compute; reflexivity|].
+  split; [vm_compute; reflexivity|]. split; [vm_compute; reflexivity|]. split; [reflexivity|].
+  split; [vm_compute; reflexivity|]. vm_compute. auto.
+Qed.
